@@ -660,7 +660,7 @@ void QXmppStanza::Error::toXml(QXmlStreamWriter *writer) const
 class QXmppE2eeMetadataPrivate : public QSharedData
 {
 public:
-    QXmpp::EncryptionMethod encryption;
+    QXmpp::EncryptionMethod encryption = QXmpp::NoEncryption;
     QByteArray senderKey;
 
     // XEP-0420: Stanza Content Encryption
